@@ -47,6 +47,13 @@ class Facts:
         self.impls = {i['id']: i for i in r['impls']}
         self.traits = {t['path']: t for t in r['traits']}
         self.consts = {c['path']: c for c in r['consts']}
+        # initialiser bodies of constants get synthetic (negative) def ids so that the summariser can run them
+        self.const_body_ids = {}
+        for i, c in enumerate(r['consts']):
+            if c.get('body') is not None:
+                cid = -1000 - i
+                self.bodies[cid] = c['body']
+                self.const_body_ids[norm_path(c['path'])] = cid
         # format_args! templates and (separately) the inert attributes of struct / enum items from the expanded AST
         self.fmt = [x for x in r['fmt'] if 'adt_attrs' not in x]
         self.adt_attrs = {}
